@@ -2136,6 +2136,10 @@ class Interp:
             return v
         if t == "sliceobj" and all(is_c(x) for x in v[1:]):
             return v
+        if t == "partialobj" and len(v) == 3:
+            f_ = self.reify(v[1], st)
+            xs = [self.reify(x, st) for x in v[2]]
+            return None if f_ is None or any(x is None for x in xs) else ("partialobj", f_, tuple(xs))
         if t == "lambda" and len(v) == 5 and isinstance(v[4], dict):
             # a closure whose captured values are themselves constants (operator.attrgetter / itemgetter objects)
             cap = {k: self.reify(x, st) for k, x in v[4].items() if k.startswith("$")}
